@@ -24,7 +24,8 @@ THEOREMS = ['keyPair_injective', 'keyConcat_collides', 'get_returns_last_write',
             'getall_exact', 'changed_signal', 'reachable_state_refines_spec',
             'original_violates_get_returns_last_write', 'original_getall_misses_base_class',
             'original_getall_unknown_interface_empty', 'original_set_wrong_type_then_get_fails',
-            'conforms_eq_hasType', 'accessTable_eq', 'emitsTable_eq', 'classMap_facts']
+            'conforms_eq_hasType', 'accessTable_eq', 'emitsTable_eq', 'classMap_facts', 'repaired_sound',
+            'original_not_sound']
 TRUSTED_BASE = [
     'Python class machinery mirrored by hand in Obj/Props.lean and validated by the streams: MRO of a '
     'single-inheritance chain, class __dict__ order, data-descriptor lookup by attribute name, dict insertion '
@@ -908,7 +909,9 @@ def gen_decl_random(rng):
                 # an attribute shadowed by a different property (declaration not judged)
                 lv2 = rng.choice([x for x in range(depth) if x != lv])
                 q = rng.choice(f['props'])
-                classes[lv2]['descs'].append([a, q[0], f['name']])
+                # (str(float) is not modelled: keep float-holding and str-cast properties off one attribute)
+                if not ({p[1], q[1]} & set('og') and {p[1], q[1]} & {'d', 'v'}):
+                    classes[lv2]['descs'].append([a, q[0], f['name']])
     if rng.random() < 0.03:
         classes[rng.randrange(depth)]['descs'].append(['px', 'nowhere', None if rng.random() < 0.5 else names[0]])
     if rng.random() < 0.02:
